@@ -27,6 +27,9 @@ static void setup(Runner &r, const Tier &t) {
         else g_texts.push_back(pick_texts(f.corpus, t.thorough ? 6 : 3, 5, t.thorough ? 12 : 9));
         // a line that ends in marks (exercises reverseSlots' mark handling at a line end)
         if (f.font == "Awami_test.ttf") g_texts.back().push_back("\xd9\xbe\xd8\xb3\xd8\xaa\xd9\x8a\xd9\x94 | \xd8\xba\xd9\x84\xd9\x8a\xd9\x94");
+        // very short segments (pool sizes derived from the character count): the first one and two characters of the first text, and a lone space
+        { const std::string &t0 = g_texts.back()[0]; size_t p1 = 1; while (p1 < t0.size() && (uint8_t(t0[p1]) & 0xC0) == 0x80) ++p1; size_t p2 = p1 < t0.size() ? p1 + 1 : p1; while (p2 < t0.size() && (uint8_t(t0[p2]) & 0xC0) == 0x80) ++p2;
+          std::string one = t0.substr(0, p1), two = t0.substr(0, p2); g_texts.back().push_back(one); if (two != one) g_texts.back().push_back(two); g_texts.back().push_back(" "); }
         int fi = int(g_fonts.size()) - 1;
         for (int ti = 0; ti < int(g_texts[fi].size()); ++ti) for (int dir = 0; dir < 8; ++dir) for (int wf = 0; wf < 2; ++wf) g_cases.push_back({ fi, ti, dir, wf });
     }
